@@ -169,3 +169,24 @@ Proof.
   unfold add_var. rewrite Ht. simpl. destruct k as [kp kn]. simpl in *. rewrite Hr.
   destruct r as [rp rn]. split; reflexivity.
 Qed.
+
+(* ---------------------------------------------------------------- generic targets (known finding) *)
+(* no replacement target is a generic type: AddVar sees the map as configured *)
+Definition plain_targets (decl : rkey -> str) (rt : rtmap) : Prop :=
+  forall e, In e rt -> decl (snd e) = [].
+
+Definition plain_targetsb (decl : rkey -> str) (rt : rtmap) : bool :=
+  forallb (fun e => match decl (snd e) with [] => true | _ => false end) rt.
+
+Lemma plain_targetsb_spec decl rt : plain_targetsb decl rt = true -> plain_targets decl rt.
+Proof.
+  unfold plain_targetsb. rewrite forallb_forall. intros H e Hin. specialize (H e Hin).
+  destruct (decl (snd e)); [reflexivity | discriminate].
+Qed.
+
+Lemma resolve_plain decl rt : plain_targets decl rt -> resolve_targets decl rt = rt.
+Proof.
+  intros H. unfold resolve_targets. induction rt as [|[k [rp rn]] rt IH]; [reflexivity|].
+  pose proof (H (k, (rp, rn)) (or_introl eq_refl)) as E. simpl in E. simpl. rewrite E, app_nil_r. f_equal.
+  apply IH. intros e He. apply H. now right.
+Qed.
